@@ -2,6 +2,7 @@ SPECIFICATION MCSpec
 CONSTANT Variant = "two"
 CONSTANT StrictEvents = TRUE
 CONSTANT FixF5 = FALSE
+CONSTANT FixF23 = TRUE
 CONSTANT AddFirst = TRUE
 CONSTANT Procs = {"p1", "p2"}
 CONSTANT Jobs = {"a", "b"}
